@@ -555,3 +555,79 @@ Proof.
   - unfold empty_page_free. destruct (get_page s p) as [pi|]; [|discriminate]. destruct (pheap pi); [|discriminate].
     destruct (is_nil _); [|discriminate]. intros K. inversion K; subst s'. split; reflexivity.
 Qed.
+
+(* ================================================================================================ *)
+(* mi_heap_delete of a heap that is NOT compatible with the backing heap (or of the backing heap):   *)
+(* _mi_heap_collect_abandon on a live thread                                                         *)
+(* ================================================================================================ *)
+Theorem delete_incompatible_abandons s h hp bp s' :
+  heap_Inv s -> get_heap s h = Some hp -> get_heap s (backing s) = Some bp -> h <> backing s ->
+  heaps_compatible bp hp = false -> heap_delete s h = Some s' ->
+  (* a page of h with live blocks keeps them, but has no heap any more and is in no queue of any heap *)
+  (forall p pi, get_page s p = Some pi -> pheap pi = Some h -> blocks pi <> [] ->
+     (forall d, find_desc (descs s) h = Some d -> ~ In d (blocks pi)) ->
+     get_page s' p = Some (set_pheap None (set_in_full false pi)) /\
+     (forall k hk i, get_heap s' k = Some hk -> ~ In p (qget (queues hk) i)) /\
+     (forall b, In b (blocks pi) -> In b (live_blocks s') /\ heap_of_block s' b = None)) /\
+  (forall p pi, get_page s p = Some pi -> pheap pi = Some h -> blocks pi = [] -> get_page s' p = None) /\
+  ~ In h (heap_ids s') /\ heap_Inv s'.
+Proof.
+  intros I H B Hne C K. pose proof (heap_delete_inv s h s' I K) as I'.
+  unfold heap_delete in K. rewrite H, B, C in K. rewrite andb_false_r in K.
+  pose proof (heap_collect_abandon_inv s h I) as I1.
+  assert (forall p, In p (heap_pages hp) -> exists pi, get_page s p = Some pi /\ pheap pi = Some h) as HP.
+  { intros p Hp. apply (inv_queued_iff s h hp p I H). exact Hp. }
+  destruct (collect_abandon_fold_spec h (heap_pages hp) s I (inv_heap_pages_nodup s h hp I H) HP)
+    as [T1 [T2 [T3 [T4 [T5 [T6 [T7 T8]]]]]]].
+  unfold heap_collect_abandon in K, I1. rewrite (inv_visit s h hp I H) in K, I1.
+  set (s1 := fold_left page_collect_abandon (heap_pages hp) s) in *.
+  assert (exists hp1, get_heap s1 h = Some hp1) as [hp1 H1].
+  { apply in_ids_get_heap. rewrite T4. eapply get_heap_in_ids; eauto. }
+  destruct (heap_free_spec s1 h hp1 s' I1 H1 ltac:(rewrite T7; exact Hne) K) as [d [D BF]]. rewrite T8 in D.
+  assert (forall p pi, get_page s1 p = Some pi -> pheap pi <> Some h) as NP.
+  { intros p pi G. pose proof (collect_abandon_no_pages s h hp I H p pi) as X. unfold heap_collect_abandon in X.
+    rewrite (inv_visit s h hp I H) in X. apply X. exact G. }
+  pose proof (unlink_heap_inv s1 h I1 ltac:(rewrite T7; exact Hne) NP) as Iu.
+  destruct (block_free_spec _ _ _ _ Iu BF) as [pd [pid [Gd [Hd FR]]]].
+  set (su := unlink_heap s1 h) in *.
+  destruct (unlink_frames s1 h) as [Up _]. fold su in Up.
+  assert (forall q, get_page su q = get_page s1 q) as GPu by (intros q; unfold get_page; rewrite Up; reflexivity).
+  split; [|split; [|split]].
+  - intros p pi G E NE ND.
+    assert (In p (heap_pages hp)) as Hp by (apply (inv_queued_iff s h hp p I H); eauto).
+    assert (get_page s1 p = Some (set_pheap None (set_in_full false pi))) as G1.
+    { rewrite (T2 p pi Hp G). destruct (blocks pi); [congruence|reflexivity]. }
+    assert (p <> pd) as Hpd.
+    { intros ->. rewrite GPu, G1 in Gd. inversion Gd; subst pid. cbn in Hd. apply (ND d D). exact Hd. }
+    assert (get_page s' p = Some (set_pheap None (set_in_full false pi))) as G'.
+    { rewrite (fr_other _ _ _ _ _ FR p Hpd), GPu. exact G1. }
+    split; [exact G'|]. split.
+    + intros k hk i Hk. apply (heapless_page_not_queued s' p _ k hk i I' G' eq_refl Hk).
+    + intros b Hb. split.
+      * apply live_blocks_in. eexists. eexists. split; [apply get_page_in; exact G'|exact Hb].
+      * rewrite (live_heap_of_block s' b p _ I' G' Hb). reflexivity.
+  - intros p pi G E NE.
+    assert (In p (heap_pages hp)) as Hp by (apply (inv_queued_iff s h hp p I H); eauto).
+    assert (get_page s1 p = None) as G1 by (rewrite (T2 p pi Hp G), NE; reflexivity).
+    destruct (N.eq_dec p pd) as [X|X]; [subst; rewrite GPu in Gd; congruence|].
+    rewrite (fr_other _ _ _ _ _ FR p X), GPu. exact G1.
+  - rewrite (fr_hids _ _ _ _ _ FR). unfold su. rewrite heap_ids_unlink, filter_In, negb_true_iff, N.eqb_neq. tauto.
+  - exact I'.
+Qed.
+
+(* The model shows the recorded finding impl:heap-delete-incompatible: thread-local heaps 0 (backing)
+   and 1 (bound to arena 7, hence not compatible); heap 1 allocates one block; mi_heap_delete(1)
+   abandons its page; the state satisfies the invariant, the block is live, and its local free
+   (segment still owned by this thread) dereferences the NULL heap of the page. *)
+Definition refute_ops : list heap_op :=
+  [ OpNew 1 false 0 7 5000 (MFresh 11 5000 10000 4000);
+    OpMalloc 1 5 20000 (MFresh 12 20000 1000 100);
+    OpDelete 1 ].
+
+Theorem delete_incompatible_refuted :
+  exists ops s b, heap_run (heap_init 0 0 0) ops = Some s /\ heap_inv_b s = true /\ desc_inv_b s = true /\
+                  inb b (live_blocks s) = true /\ heap_of_block s b = None /\
+                  free_faults s b true = true /\ heap_step s (OpFree b true) = None.
+Proof.
+  exists refute_ops. eexists. exists 20000. split; [vm_compute; reflexivity|]. vm_compute. repeat split.
+Qed.
